@@ -171,10 +171,10 @@ def run_sequence(spec, ops, judge_from=0, stats=None, want_trace=False):
 
 
 def _run_sequence(spec, ops, judge_from, st, trace, step, note=None):
-    note = note if note is not None else [None]
     """Execute ``ops``.  Steps before ``judge_from`` are executed on both sides
     but not compared (the exhaustive enumerator judged them already as shorter
-    sequences).  Returns (divergence or None, stats, trace)."""
+    sequences).  Returns the first divergence or None."""
+    note = note if note is not None else [None]
     want_trace = trace is not None
     run = spec.new()
     prev_model_state = None
@@ -203,11 +203,19 @@ def _run_sequence(spec, ops, judge_from, st, trace, step, note=None):
         if exp[0] == "unjudged":
             st.unjudged += 1
             problem = run.resync()        # may name an invariant that has to hold even for unjudged steps
+            if judged:
+                st.outcome_evals += 1     # resync() evaluated the step's invariants
             if problem and judged:
-                st.outcome_evals += 1
                 return Divergence(kind="invariant", step=i, op=op, expected="invariant holds after an unjudged step",
                                   observed=problem)
-            prev_model_state = None
+            if judged:
+                ms = norm(run.model_state())
+                if ms != prev_model_state:
+                    st.changed += 1
+                    st.opcount(op[0], "changed")
+                prev_model_state = ms
+            else:
+                prev_model_state = None
             if want_trace:
                 trace.append({"op": op, "unjudged": True})
             continue
